@@ -194,6 +194,10 @@ func C02(c *core.Ctx) {
 	c.Explain = "Decides structural necessary conditions of C02 on every path of the Interest pipeline: (R2.1) each of the five drop conditions of the property (hop limit zero, missing nonce, dead nonce, duplicate nonce from another face, answered from cache) disconnects, with the right polarity, every upstream emission (the Strategy.AfterReceiveInterest call and the NextHopFaceId SendPacket) from the entry of processIncomingInterest; (R2.2) the hop-limit decrement store precedes every emission when a hop limit is present; (R2.3) the face id handed to processOutgoingInterest originates only from the Nexthop field of elements of the slice returned by FibStrategy.FindNextHopsEnc on the Interest name or forwarding hint (backward provenance slice through the strategies), or from NextHopFaceID; (R2.4) the outgoing pipeline's same-face/ad-hoc and hop-limit gates and out-record pairing; (R2.5) suppression-window gate with per-iteration discipline, best-route's ascending-cost comparator and stop-after-first-success, multicast's unconditional send per next hop; (R2.6) the duplicate verdict of InsertInterest is gated by other-face AND same-nonce; (R2.7) expiry moves out-record nonces to the dead nonce list; (R2.8) HopLimitV points into the wire buffer. Not decided: timing of the suppression interval, liveness of 'first Interest is forwarded', FIB contents."
 	c.RuleText = "instances: emission effects × drop gates in processIncomingInterest; every Strategy implementation discovered through the type checker; every processOutgoingInterest/SendInterest call site; Return instructions of InsertInterest. Non-trivial = has at least one branch edge, path or provenance leaf to decide."
 	p := c.P
+	// ---- R2.10 (shared with C08 R8.3) a nonce recorded as dead stays dead for its lifetime
+	c.Import(C08, "R2.10", "a dead-nonce record can disappear before its lifetime is over: a looping Interest with that nonce is forwarded", 1, func(k string) bool {
+		return k == "R8.3:dnl-one-expiry-item-per-record"
+	})
 	// ---- R2.9 the out-record and in-record updates write the same state whether the
 	// record is new or already exists (suppression and duplicate detection read it)
 	if fn := c.Fn("R2.9", "fw/table", "nameTreePitEntry", "InsertOutRecord"); fn != nil {
